@@ -35,6 +35,9 @@ DECIDES = ('(CTX) every load of CIntToPy / CIntFromPy binds all variables the te
            'and the boundary / digit-pattern set beyond is converted exactly when it fits, raises OverflowError and returns (TYPE) -1 when it does not, objects with __index__ are converted, other objects give TypeError, '
            'no undefined C operation (NULL dereference, signed shift into the sign bit, read past the digits) is executed, and CIntToPy hands back the value of the C integer (rules/sC05.py); '
            '(ERRTYPE) the sentinel comparison emitted by error_condition (CType and the external-typedef variant, cast_code & co. resolved) is true for (T)-1 and false otherwise for every integer rank x signedness under C\'s promotion rules.')
+DECIDES += (' (TDEFERR, rules/s7C05.py) external integer typedefs: every feasible path of CTypedefType.error_condition for {typedef_is_external, integer base class constants seen through __getattr__} emits a sentinel test that is '
+            'true for (T)-1 of the REAL type and false otherwise for every rank x signedness of the real type x every rank x signedness of the DECLARED base type (delegation to the base type renders its cast as the declared type); '
+            'CTypedefType.from_py_call_code hands its own error_condition(result_code) to the base type\'s emitter whenever the caller gave none.')
 NOT_DECIDED = ('the transfer of MODEL from the model widths (8-bit byte, 3-bit digits) to the production widths - it rests on the width-parametricity of the template (widths only through sizeof / PyLong_SHIFT / the literal 8); '
                'the accessor macros themselves (__Pyx_PyLong_IsNeg, _DigitCount, _Digits, _CompactValue: modelled by their contracts) and __Pyx_PyNumber_Long; the text pylong_join generates (its documented meaning is modelled); '
                'the bit-chunk fallback of __Pyx_LargePyLong_* (PyPy / limited API) and the int.from_bytes() fallback of CIntToPy; error_condition of typedefs whose exception_value is an instance attribute other than -1; '
@@ -754,6 +757,9 @@ def rule_errtype(ctx):
         todo.append(('PyrexTypes.%s.error_condition(%s)' % (owner.name, c.name), owner, fn, c))
     if td is not None and 'error_condition' in td.methods:
         todo.append(('PyrexTypes.CTypedefType.error_condition(external typedef)', td, td.methods['error_condition'], td))
+    elif td is not None:
+        # no method of its own: the base type's test is used through __getattr__; what that means for external typedefs is decided by C05-TDEFERR (rules/s7C05.py)
+        r.inst('PyrexTypes.CTypedefType.error_condition(external typedef)', sample='CTypedefType has no error_condition of its own')
     for key, owner, fn, c in todo:
         res = fn.args.args[1].arg if len(fn.args.args) > 1 else None
         conds = set()
@@ -767,6 +773,9 @@ def rule_errtype(ctx):
                     else:
                         conds.add(' '.join(alt.split()))
         if not conds and not unmodelled:
+            if owner is td:
+                # the typedef's method emits no comparison of its own (pure delegation): nothing to evaluate here, the delegated test is decided by C05-TDEFERR (rules/s7C05.py)
+                r.inst(key, sample='%s: no comparison of its own' % key)
             continue
         r.inst(key, sample='%s: %s' % (key, sorted(conds)))
         if unmodelled:
@@ -782,9 +791,9 @@ def rule_errtype(ctx):
 
 
 def run(ctx):
-    from ..rules import fixedconv, sC05, dD7
+    from ..rules import fixedconv, sC05, dD7, s7C05
     return [rule_ctx(ctx), rule_sent(ctx), rule_digits(ctx), rule_api(ctx), fixedconv.rule_fixed(ctx), sC05.rule_neg(ctx), sC05.rule_model(ctx), rule_errtype(ctx),
-            dD7.rule_index(ctx), dD7.rule_nonint(ctx)]
+            dD7.rule_index(ctx), dD7.rule_nonint(ctx), s7C05.rule_tdeferr(ctx)]
 
 
 MUTATIONS = [
@@ -812,6 +821,9 @@ MUTATIONS = [
     ('Cython/Utility/TypeConversion.c', '__Pyx_PyULong: #elif arm loses its Py_SIZE(x) < 0 test and converts through PyLong_AsLong', 'C05-NEG'),
     ('mutants/C05/*', '15 + 6 brainstormed breaking edits (digit-count guards off by one digit, sign not applied, workers exchanged, is_signed / native-bytes flags, bytes_copied >=, error_condition casts, '
                       'VERIFY macro weakened, NULL checks dropped, compact accessor of the wrong signedness, ...) and 12 behaviour-preserving rewrites; see meta.json of each', 'C05-MODEL / C05-ERRTYPE'),
+    ('Cython/Compiler/PyrexTypes.py', 'round 7 (rules/s7C05.py, mutants/C05/tdef-*): seed C05j (CTypedefType.error_condition always delegates) and siblings: external test negated / narrowed, sentinel cast by the '
+                                      'declared base type, method removed, from_py_call_code passing None / the base type\'s test; 4 rewrites (if/else with a local, early return + f-string, `if x is None:` wiring, cast spelled out) silent',
+     'C05-TDEFERR'),
     # behaviour-preserving edits, all silent
     ('Cython/Utility/TypeConversion.c', '__Pyx_PyULong: #elif arm loses its Py_SIZE(x) < 0 test, or the PyPy arm its `result == 1` jump (PyLong_AsUnsignedLong[Long] reject negatives themselves)', 'silent'),
     ('Cython/Utility/TypeConversion.c', 'dispatcher: `if (likely(IsCompact(x) && !IsNeg(x))) VERIFY else if (IsNeg(x)) goto raise_neg_overflow; else ...`; early-exit form '
